@@ -107,9 +107,16 @@ CLAIMED = {'C01': {'design_ref': 'DESIGN.md §5 C01',
                  'serialised at traced source lines, cooperative locks) and the compiled driver. The theorems are '
                  "about a lock-granularity model; that the code's critical sections are where the model says is "
                  'established only by the enumerated schedules (exploration supporting the tie, not standing in for '
-                 'the theorem). Sequential behaviour of TextFileSource/DataStore/YamlTargetSource used as reference '
-                 'for the linearization search is the real code run sequentially (verified against Lean models by '
-                 'C14/C15/C12); for the synchronized LRU the search runs in Lean on the Lean model. Partial: '
+                 'the theorem). For all four components the linearization search (threads\' results AND the probe of '
+                 'the state left behind) runs in Lean: the driver evaluates Conc.linearizableP at step functions '
+                 'built from the models that C15 (DataStore), C14 (TextFileSource) and C12 (YamlTargetSource) verify '
+                 'against the code; calls/results travel in those properties\' canonical JSON, lines pre-classified '
+                 'by the real re, YAML texts rendered/parsed/matched by the real libraries, version hashes mapped to '
+                 'the model\'s symbolic versions through tables computed with the real hash functions. The real code '
+                 'run sequentially is kept only as a cross-check of the two references (a disagreement is a broken '
+                 'correspondence, not a violation). YamlTargetSource.get_data is not one critical section: for it '
+                 'the lock-granularity theorem is an idealisation and the real interleavings rest on the sweeps. '
+                 'Partial: '
                  'pre-emption inside one source line and C-level sqlite/GIL behaviour; the one-read-per-file repair '
                  'of the YAML source is keyed by file name, two names of one file are still read separately.',
          'technique': 'Lean 4 proof (lock-granularity small-step model: mutex invariant, sequential log, '
@@ -118,12 +125,16 @@ CLAIMED = {'C01': {'design_ref': 'DESIGN.md §5 C01',
          'text': 'Lean theorems for every component whose operations each run inside one critical section of one '
                  'lock, for every number of threads, every program and EVERY schedule of acquire/load/store/release '
                  'steps (the critical section is not atomic in the model): mutual exclusion, the log is a valid '
-                 'sequential execution, the per-thread results pass the linearizability checker (also evaluated in '
-                 "Lean on the real synchronized LRU's results), no deadlock. Correspondence: real threads on "
+                 'sequential execution, the per-thread results together with the answers to any calls made afterwards '
+                 'pass the linearizability checker (linearizable_run_probe; the checker is sound: what it accepts is '
+                 'explained by a sequential order — linearizableP_sound), no deadlock; instances at the Lean models of '
+                 'the synchronized LRU, DataStore (C15), TextFileSource (C14) and YamlTargetSource (C12). '
+                 'Correspondence: real threads on '
                  'SynchronizedCache(LRUCache), DataStore, TextFileSource and YamlTargetSource under a deterministic '
                  'scheduler with enumerated single pre-emptions at every traced line (sweeps) and sampled double '
-                 'pre-emptions, a file rewrite placed at every point; results must be among the sequential outcomes '
-                 'and the component must answer correctly afterwards.'},
+                 'pre-emptions, a file rewrite placed at every point; the same checker is evaluated in Lean on what the '
+                 'real threads returned and on the probe calls made after the run (cross-checked against the real '
+                 'code run sequentially).'},
  'C20': {'design_ref': 'DESIGN.md §5 C20',
          'note': 'Trusted: Lean kernel (axioms of every listed theorem audited each run ⊆ '
                  'propext/Classical.choice/Quot.sound), the translator of protocol constants, the simulation harness '
